@@ -10,13 +10,13 @@ NOTE = ('Real-arithmetic semantics of the float64 jaxpr traced from /repo (const
 
 CHECKS = {
   'C01': dict(category='other', technique='symbolic execution of the traced jaxpr (sparse affine/polynomial normal forms) + QF_LRA queries (z3, cvc5 cross-check); mpmath analytic-basis oracle',
-              text='Bounded symbolic verification: round trip, mask exactness, integral identity, orthonormality and agreement with the analytic basis are decided for ALL spectral fields in [-1,1]^n on each enumerated grid (both implementations, 3 spacings incl. grids whose truncation sits exactly at the resolution limit, padding options, leading axes); mask and wavenumber tables tied to the documented triangular truncation.',
+              text='Bounded symbolic verification: round trip, mask exactness, integral identity, orthonormality and agreement with the analytic basis are decided for ALL spectral fields in [-1,1]^n on each enumerated grid (both implementations, 3 spacings incl. grids whose truncation sits exactly at the resolution limit, padding options, leading axes); mask and wavenumber tables tied to the documented triangular truncation. Integer-valued fields stored as int64/int32 (symbolic integer values) are transformed like their real values.',
               design='§3 C01'),
   'C02': dict(category='other', technique='symbolic execution of the traced jaxpr + QF_LRA queries; mpmath analytic-derivative oracle',
               text='Bounded symbolic verification: every spectral operator (d_dlon, cos_lat_d_dlat, sec_lat_d_dlat_cos2, grad, div, curl, Laplacian, inverse, clipping, wind conversions) is compared for ALL fields in the box with analytic derivatives of the basis, the eigenvalue specification, vector identities and round trips, on each enumerated grid.',
               design='§3 C02'),
   'C03': dict(category='other', technique='symbolic execution of the traced jaxpr + QF_LRA queries (monomial abstraction, denominators cleared for shallow water)',
-              text='Bounded symbolic verification of the resolvent identity inverse(x - eta G x, eta) = x for ALL states on each enumerated (grid, uneven/even sigma levels, T_ref, constants, step size of either sign, dense/sparse operator, split/stacked/blockwise solve); dense==sparse for all inputs; linearity; derived (replace/copy) equation objects; shallow water with symbolic step and reference potentials.',
+              text='Bounded symbolic verification of the resolvent identity inverse(x - eta G x, eta) = x for ALL states on each enumerated (grid, uneven/even sigma levels, T_ref, constants, step size of either sign, dense/sparse operator, split/stacked/blockwise solve); dense==sparse for all inputs; linearity; derived (replace/copy) equation objects; shallow water with symbolic step and reference potentials. Reference profiles with isothermal stretches (some vertical couplings vanish, not all) are in the set.',
               design='§3 C03'),
   'C04': dict(category='other', technique='symbolic execution of the traced jaxpr (polynomial normal forms, reciprocal atoms reduced modulo their relations) + QF_LRA monomial-abstraction queries, NRA/replay on sat',
               text='Metamorphic polynomial identity decided for ALL admissible states: explicit+implicit tendency of the same physical atmosphere under two reference-temperature profiles agree (dry, with-time, moist, cloud classes; orography; tracers; even/uneven levels; non-monotone profiles).',
@@ -49,10 +49,10 @@ CHECKS = {
               text='Vertical: overlap lemmas for ALL strictly increasing source/target bounds (<= 6x5 cells), weights in [0,1] with unit row sums, hybrid-to-sigma regridding for ALL surface pressures in [400,1100] and fields (constants, convex combination, thickness-weighted integral over the covered range against an independent specification of the hybrid layers, low-top models). Horizontal: latitude overlap identities for ALL increasing centres (<= 4x3), symbolic longitude centres, concrete grid pairs with ALL fields symbolic (constants, range, area integral), documented NaN rules on enumerated missing patterns. Integer (int64/int32, values in [-8,8]) and boolean fields with SYMBOLIC values regrid exactly like their float64 values (QF_LIRA, float->int conversion as ToInt).',
               design='§3 C16'),
   'C17': dict(category='other', technique='symbolic execution of the traced interpolation routines (scan-based searchsorted, clamped dynamic_slice/gather, masks) to z3 terms with symbolic query point, data (and nodes for n<=3) + QF_LRA atom specialisation + QF_NRA queries',
-              text='For ALL query points and data (concrete uneven node sets up to 6 nodes; symbolic nodes for n<=3): value at nodes, agreement with the reference piecewise-linear interpolant, neighbour bounds, exactness on affine data, documented extrapolation (constant / unlimited linear / n cells then missing), equality of the two interp code paths, sigma<->pressure on affine columns for all surface pressures, surface-pressure equation, column-wise wrappers; bilinear/nearest regridding constants and identity.',
+              text='For ALL query points and data (concrete uneven node sets up to 6 nodes; symbolic nodes for n<=3): value at nodes, agreement with the reference piecewise-linear interpolant, neighbour bounds, exactness on affine data, documented extrapolation (constant / unlimited linear / n cells then missing), equality of the two interp code paths, sigma<->pressure on affine columns for all surface pressures, surface-pressure equation, column-wise wrappers; bilinear/nearest regridding constants and identity. Fields with a leading axis and nested tree leaves are converted like their [level,x,y] slices (both directions).',
               design='§3 C17'),
   'C20': dict(category='other', technique='symbolic execution of the traced forcing code to z3 terms (sin/cos/exp uninterpreted with instantiated axioms, floor via to_int) + QF_UFNRA/QF_NRA/QF_LIRA queries with lemma decomposition and cut points; real numpy code on symbolic duck arrays; polynomial identities with atoms',
-              text='Radiation: for ALL phases, positions and solar constants: |sin altitude|<=1, irradiance bounds, 0 <= flux <= S+dS, flux = 0 iff sun not above horizon, normalised flux in [0,1], 2pi-periodicity in both phases; orbital phases in [0,2pi) and congruent to elapsed time; SolarRadiation (class level): node coordinates equal the grid specification (offsets, both layouts) and radiation_flux(t) equals the unit function at those nodes for every t. Held-Suarez: friction/relaxation rates for ALL sigma levels and parameters (non-negative, zero above the boundary layer), linear drag law, temperature relaxation affine in T and independent of wind, no surface-pressure tendency, equilibrium floor.',
+              text='Radiation: for ALL phases, positions and solar constants: |sin altitude|<=1, irradiance bounds, 0 <= flux <= S+dS, flux = 0 iff sun not above horizon, normalised flux in [0,1], 2pi-periodicity in both phases; orbital phases in [0,2pi) and congruent to elapsed time; SolarRadiation (class level): node coordinates equal the grid specification (offsets, both layouts) and radiation_flux(t) equals the unit function at those nodes for every t. Held-Suarez: friction/relaxation rates for ALL sigma levels and parameters (non-negative, zero above the boundary layer), linear drag law, temperature relaxation affine in T and independent of wind, no surface-pressure tendency, equilibrium floor. Held-Suarez drag/relaxation also on a surface-refined level set.',
               design='§3 C20'),
   'C18': dict(category='other', technique='symbolic scalars (z3 Real; Float64 bit-vector term + rounding-error-model term) executed through the real scales.py / pint / xarray_utils code, numpy integer cast captured; QF_NRA, QF_BVFP (z3 then cvc5) and QF_LIRA queries',
               text='Scale laws (inverse, unit independence, products/quotients/powers) for ALL magnitudes and ALL positive base scales; whole-second durations and minute-resolution datetimes through the real conversion code decided bit-precisely on a bounded range (both signs) and by the rounding-error model up to 2^26 minutes; orbital phases from symbolic day-of-year/hour/minute.',
@@ -67,7 +67,7 @@ CHECKS = {
               text='For ALL admissible states, tangents and cotangents: forward mode equals the exact derivative of the primal (chain rule through exp/log/pow/reciprocal atoms), reverse mode is the adjoint of forward mode, and no undefined operation is reachable in the derivative programs (an operation on the edge of its domain is settled by a solver witness replayed on the real jax.jvp/jax.vjp): transforms and spectral operators, filters, dry and moist primitive-equation explicit/implicit terms and a filtered Euler step, shallow-water steps, Held-Suarez forcing, plain and padded layouts; kinks (vertical interpolation routines, upwind advection) decided in the term domain for every branch: derivative of the documented formula off the kink, central-difference limit at the kink, adjointness everywhere. A comparison on data that switches inside the admissible box in a differentiated program is probed: QF_NRA witnesses on either side of and on the switching surface, real jax.jvp against central differences of the real primal there.',
               design='§3 C08'),
   'C13': dict(category='other', technique='symbolic execution of the traced jaxpr + QF_LRA queries (monomial abstraction for bilinear clauses)',
-              text='Bounded symbolic verification of the sigma calculus identities for ALL column data and vertical velocities on each enumerated level set (even, dyadic uneven, seeded random), axis and shape.',
+              text='Bounded symbolic verification of the sigma calculus identities for ALL column data and vertical velocities on each enumerated level set (even, dyadic uneven, seeded random), axis and shape. The same calculus on integer-valued data stored as int64/int32 (traced with an integer argument, integer witnesses) equals the documented formulas on the real values.',
               design='§3 C13'),
 }
 
